@@ -1805,14 +1805,13 @@ JettisonOutgoingResults(const NodePathMatcher * matcher)
                // Remove all matching items from the Message.  (Yes, the iterator can handle this!  :^))
                for (MessageFieldNameIterator iter = msg->GetFieldNameIterator(B_MESSAGE_TYPE); iter.HasData(); iter++)
                {
-                  const String & nextFieldName = iter.GetFieldName();
+                  const String nextFieldName = iter.GetFieldName();  // deliberately a copy, since we may remove the field (and its name-string) from (msg) below
                   if (matcher->GetNumFilters() > 0)
                   {
                      ConstMessageRef nextSubMsgRef;
                      for (uint32 j=0; msg->FindMessage(nextFieldName, j, nextSubMsgRef).IsOK(); /* empty */)
                      {
-                        if (matcher->MatchesPath(nextFieldName(), nextSubMsgRef(), NULL)) (void) msg->RemoveData(nextFieldName, i);
-                                                                                     else j++;
+                        if ((matcher->MatchesPath(nextFieldName(), nextSubMsgRef(), NULL) == false)||(msg->RemoveData(nextFieldName, j).IsError())) j++;  // note that it's item (j) we want to remove, not (i) (which is our index into the outgoing-Messages queue)
                      }
                   }
                   else if (matcher->MatchesPath(nextFieldName(), NULL, NULL)) (void) msg->RemoveName(nextFieldName);
